@@ -90,3 +90,10 @@ def _dropping(series, extra):
         bounded=dict(bound='every history of <= 7 (thorough: 8) actions over 5 statement sizes and poll; queue capacity 1 KiB (unbounded: up to 2 KiB)', form='b'),
         dropped=[], trusted=['g++ / libstdc++ / fmt execute the real frontend and backend on ONE thread (no concurrency: the interleavings are units BQ.* / UQ.*)'], min_obligations=1, timeout=1500)
 UNITS += [_dropping('bounded', []), _dropping('unbounded', ['SERIES_UNBOUNDED'])]
+exception_history = dict(
+    name='BW.exception_history', primary='C10', props={'C10'}, kind='L', funcs=[], enforce=None,
+    desc='formatting failures (user formatter throwing std::exception or an int, DeferredFormatCodec) and throwing sinks through the real pipeline with two sinks on one logger, for every history of bounded length: the other statements reach both sinks once and in order, a failing one is missing at most from the throwing sink and those after it or carries the explanatory text, every failure is reported once, the backend keeps running',
+    native=dict(cpp='exception_history.cpp', file='include/quill/backend/BackendWorker.h', function='BackendWorker::{_populate_formatted_log_message,_process_lowest_timestamp_transit_event,_process_transit_event,_write_log_statement}', defs_quick=['LEN=6'], defs_thorough=['LEN=8']),
+    bounded=dict(bound='every history of <= 6 (thorough: 8) statements over 5 kinds, two sinks', form='b'),
+    dropped=[], trusted=['g++ / libstdc++ / fmt execute the real frontend and backend'], min_obligations=1, timeout=1500)
+UNITS += [exception_history]
